@@ -148,9 +148,10 @@ type sim struct {
 	panicked  *kit.BubblePanic // a panic of the code under test inside a stimulus (re-raised after clean-up)
 	deadStops []func()         // Stop calls of nodes that died inside a stimulus (may block forever)
 
-	intents map[common.Hash]*intent // what each submitted transaction asked for
-	escrow  *big.Int                // Σ value detained by applied create/deposit/delegation-add transactions of the running period
-	g       *genState
+	intents   map[common.Hash]*intent // what each submitted transaction asked for
+	cbChanged map[common.Address]int  // validator -> block in which an update naming a new reward address was applied
+	escrow    *big.Int                // Σ value detained by applied create/deposit/delegation-add transactions of the running period
+	g         *genState
 }
 
 // do runs a stimulus on a helper goroutine, so that a simulated logging.Crit (which ends the
@@ -200,7 +201,7 @@ func runSim(r *kit.Run, body func(s *sim)) {
 	crand.Reader = kit.NewStream(r.Seed, r.Index)
 	sc := drawScale(r.C)
 	restore := applyScale(sc)
-	s := &sim{r: r, c: r.C, sc: sc, intents: map[common.Hash]*intent{}, escrow: new(big.Int)}
+	s := &sim{r: r, c: r.C, sc: sc, intents: map[common.Hash]*intent{}, escrow: new(big.Int), cbChanged: map[common.Address]int{}}
 	defer func() {
 		crand.Reader = oldRand
 		logging.SimCrit = nil
